@@ -53,6 +53,10 @@ def gen_event(rng, weights):
         return rng.choice(["P:d:69", "P:d:81", "P:m:0", "P:m:1", "P:t:0", "P:t:1", "P:m:2"])
     if k == "C":
         return "C"
+    if k == "G":
+        return rng.choice(["G:81", "G:69"])
+    if k == "R":
+        return "R"
     raise ValueError(k)
 
 
@@ -68,8 +72,8 @@ def fmt_line(h):
 
 
 def is_gated(h):
-    """histories with the harness-only events G / R (a slow subscriber on the protocol's new-device event) are
-    judged by the statement-level oracle only: the Lean machine does not model frames in the middle of handling"""
+    """histories with the events G / R (a slow subscriber on the protocol's new-device event); the Lean machine
+    models the consumers holding frames, so they are replayed by the driver like every other history"""
     return any(e.split(":")[0] in ("G", "R") for e in h[3])
 
 
@@ -110,12 +114,10 @@ def run_impl(h, stop_when_closed=True, after_event=None):
 
 
 def model_batch(hists):
-    answers = driver_batch(connrun.model_request(*h) if not is_gated(h) else "conn 1 1 -" for h in hists)
+    answers = driver_batch(connrun.model_request(*h) for h in hists)
     out = []
     for h, a in zip(hists, answers):
-        if is_gated(h):
-            out.append("gated")
-        elif a == "bad-op":
+        if a == "bad-op":
             out.append(None)
         else:
             out.append([connrun.canon_model(x) for x in a.split("|")])
